@@ -15,8 +15,11 @@ PROP = {
             "the layout table gives the same output / both fail; (2) for top-level includes whose earlier variables are known by "
             "construction, the template with each include replaced by `{{ __inc_k }}` bound to the output of rendering the file's "
             "content directly with those variables gives the same output; (3) a missing file, a non-string argument or an error "
-            "inside the included template fails the render with a usable SourceError (kind and line checked for the first two). "
-            "Cases whose layout has no cache-only file are also emitted as `render` lines and answered by the model.",
+            "inside the included template fails the render with a usable SourceError (kind and line checked for the first two, "
+            "and only when the failing include is the first top-level include of the main template). Disk-before-cache is not "
+            "an oracle of its own: it is built into the layout lookup that (1) and (2) use. A case whose layout has a cache-only "
+            "file is emitted as an `incl` line, every other case as a `render` line (FS = the disk files); both are answered by "
+            "the model.",
     "trusted_base": COMMON_TB + ["POSIX path/filepath (Clean/Join/Dir) and the operating system's file lookup",
                                  "the reference include uses the engine's own expression evaluation and ctx.Bindings()"],
     "assumptions": ["relative names resolve against the directory of the path the MAIN template was parsed with, also inside "
@@ -26,23 +29,30 @@ PROP = {
 
 TEXT = {
     "text": ("Theorems: the file name is the string value of the argument joined to the directory of the including template's "
-              "path, and the handler receives the includer's current variables (include_resolves); a non-string argument, a "
-              'missing file and an error inside the included template fail the render (include_nonstring_err, '
-              'include_missing_err, include_inner_compile_err); disk takes precedence over the cache and the cache is the '
-              "fallback (disk_over_cache, cache_fallback); what is inserted is exactly the render of the file's content with the "
-              'current variables (include_equiv); with fuel n+1 every chain of depth <= n is rendered by the real handler '
-              '(incFuel_succ). Closed form (include_denotation, include_denotation_run, include_denotation_mk): when the argument '
+              "path, and the handler receives the includer's current variables (include_resolves); a non-string argument makes "
+              'the include node fail with an error located at the tag (include_nonstring_err); the handler renderFileWith fails '
+              'with the plain error notExist when the file is neither on disk nor cached (include_missing_err) and with the '
+              'located compile error when the source on disk does not compile (include_inner_compile_err: compile errors only) -- '
+              'that the include node wraps these into a SourceError at the tag, and a render-time error inside the included '
+              'file, are not theorems (error table of the incl stream); for a file that is read, the cache is irrelevant, and '
+              'a cached source of a file that does not exist acts as that file\'s content (disk_over_cache, cache_fallback); for a '
+              "file on disk that compiles and renders normally the handler returns exactly the render of the file's content with the "
+              'current variables (include_equiv); fuel n+1 runs the handler with the fuel-n handler inside (incFuel_succ, the '
+              'defining equation; the consequence for chains of depth <= n is not stated as a theorem). Closed form (include_denotation, include_denotation_run, include_denotation_mk): when the argument '
               'evaluates to a string, the joined path has a source on disk or (only if no such file exists) in the cache, the '
               'source compiles and renders normally with a copy of the current variables to out, the include node is exactly '
               'one write of out to the includer\'s writer and leaves the variables as they were. From source bytes (Proofs.C14Source): the source '
-              '{% include "name" %} (either quote, any good delimiters), on a file system where dir(path)/name holds a source that run as a '
+              '{% include "name" %} (a string literal in either quote whose name does not contain that quote byte, any good '
+              'delimiters, the items Clean for them), on a file system where dir(path)/name holds a source that run as a '
               'template of its own (includer\'s variables, the tag\'s line, fuel one less) returns out, makes run return exactly out '
-              '(include_source); between two texts the output stands in place, T1 out T2 (include_between_texts_source). Tie: the `incl` stream answers every case (disk-only layouts as `render` lines, layouts with '
-              'cached sources as `incl` lines) by the model and the real engine, plus model-independent oracles: reference '
-              'include, inlined output, error table, precedence table.'),
+              '(include_source); between two texts (Clean as well) the output stands in place, T1 out T2 (include_between_texts_source). Tie: the `incl` stream answers every case (layouts with a cache-only file as `incl` lines, '
+              'all others as `render` lines) by the model and the real engine, plus three model-independent oracles: reference '
+              'include, inlined output, error table (disk-before-cache is built into the layout lookup the first two use).'),
     "design_ref": 'DESIGN.md 6 C14',
     "note": NOTE + ('Include depth is bounded by fuel 8 in the driver; a cyclic include is `unmodelled` there and judged by the oracle '
-              'alone.'),
+              'alone. No theorem covers a render-time error inside an included file or the SourceError the include node makes '
+              'of a handler failure (incl error table only), nor a read error other than not-exist (a name that resolves to a '
+              'directory: only the both-fail agreement with the reference include).'),
     "technique": ('Lean 4 proof (unfolding of the include handler of the render model) + model/implementation correspondence + '
               'differential oracle against a reference include'),
 }
